@@ -206,6 +206,7 @@ def run(chk, replay=None):
 
     # ------------------------------------------------------------------ oracle (property text)
     plain_bad, finding_bad = [], []
+    observations = {}
     sigs = set()
     for c in all_cases:
         r = all_runs[c.cid]
@@ -219,7 +220,10 @@ def run(chk, replay=None):
             sigs.add((c.header.split(" sched=")[0], tuple(c.ops), tuple(realised(r))))
         else:
             for (key, msg) in looplib.oracle_quit(c, r, k):
-                (finding_bad if key else plain_bad).append((c, key, msg))
+                if key and key.startswith("~"):
+                    observations[key] = observations.get(key, 0) + 1
+                else:
+                    (finding_bad if key else plain_bad).append((c, key, msg))
             if nontrivial(r):
                 sigs.add((c.header.split(" sched=")[0], tuple(c.ops), tuple(realised(r))))
         if len(chk.cov["samples"]) < 5 and c.tag in ("random", "pool") and len(r.trace) < 70 and (k == "pool" or nontrivial(r)) \
@@ -279,6 +283,7 @@ def run(chk, replay=None):
     chk.cov["pool_runs_compared"] = len(pools) - len(pool_bad)
     chk.cov["use_after_destroy"] = {"runs where the implementation touches the destroyed loop": len(impl_uaf),
                                     "runs where the model predicts it on the same schedule": len(model_uaf)}
+    chk.cov["observations_outside_the_property_text"] = observations
     chk.cov["generated_shape"] = {"current_tree_has_F3 (computed in Coq from Gen_C04.gen_shape)": has_f3_coq,
                                   "F-3 observed on the implementation": f3_impl}
     chk.cov["phase_s"] = {"impl": round(t_impl - t_start, 1), "oracle": round(t_or - t_impl, 1), "model": round(t_model - t_or, 1)}
@@ -317,11 +322,11 @@ def run(chk, replay=None):
 
     def shrink_and_write(c, msg, want_key, name):
         r = all_runs[c.cid]
-        pred = lambda cc, rr: any(k == want_key for (k, _) in oracle_any(cc, rr))
+        pred = lambda cc, rr: any(k == want_key for (k, _) in oracle_any(cc, rr) if not (k or "").startswith("~"))
         sched = schedlib.shrink_schedule(realised(r), fails_with(c, pred), max_tests=120)
         small = vlib.Case(c.cid, schedlib.set_source(c.header, schedlib.list_source(sched)), c.ops)
         rr = RL.run_impl([small], jobs=1)[small.cid]
-        msgs = [m for (k, m) in oracle_any(small, rr) if k == want_key]
+        msgs = [m for (k, m) in oracle_any(small, rr) if k == want_key and not (k or "").startswith("~")]
         msg2 = msgs[0] if msgs else msg
         extra = ""
         if want_key == looplib.F4_KEY:
